@@ -114,7 +114,7 @@ func record(text string) (fields []string, pcs []uintptr, name string, ok bool) 
 
 // ---------------------------------------------------------------- real crashes
 
-var kinds = []string{"nil", "panic", "index", "map", "inlined", "method", "generic", "goroutine", "deep16", "deep", "deadlock"}
+var kinds = []string{"longmsg", "longnames", "longnames-mixed", "nil", "panic", "index", "map", "inlined", "method", "generic", "goroutine", "deep16", "deep", "deadlock"}
 
 type realCrash struct {
 	kind     string
@@ -270,6 +270,60 @@ func spellPC(v uint64) string {
 	default:
 		return fmt.Sprintf("0x%x", v)
 	}
+}
+
+// longLine: a non-PC line of at least 64 KiB (longer than bufio.Scanner's default token limit).
+func longLine() string {
+	n := Pick(rnd, []int{65536, 65537, 70000, 200000, 65535 + rnd.Intn(4096)})
+	unit := Pick(rnd, []string{"A", "panic: secret ", "x y ", "\t/home/alice/file.go "})
+	s := strings.Repeat(unit, n/len(unit)+1)
+	if rnd.Chance(50) {
+		s = "panic: " + s
+	}
+	return s
+}
+
+// withLongLine inserts a very long line before the first running goroutine
+// (the projection is unchanged).
+func withLongLine(text string) string {
+	lines := strings.Split(text, "\n")
+	h := len(lines)
+	for i, l := range lines {
+		if strings.HasPrefix(l, "goroutine ") && strings.Contains(l, " [running]:") {
+			h = i
+			break
+		}
+	}
+	at := rnd.Intn(h + 1)
+	res := append([]string{}, lines[:at]...)
+	res = append(res, longLine())
+	res = append(res, lines[at:]...)
+	return strings.Join(res, "\n")
+}
+
+// longNameReport: a synthetic report whose frames are REAL pcs of functions
+// with very long names (captured in this process), so that the encoded name
+// lands near or beyond the 4096-byte limit within 16 frames.
+func longNameReport() string {
+	var prog []int
+	for g := 1 + rnd.Intn(4); g > 0; g-- {
+		prog = append(prog, rnd.Intn(5), 1+rnd.Intn(16))
+	}
+	var pcs []uintptr
+	longDispatch(prog, func() {
+		buf := make([]uintptr, 256)
+		n := runtime.Callers(2, buf) // from longDispatch upwards
+		pcs = append(pcs, buf[:n]...)
+	})
+	if rnd.Chance(50) && len(pcs) > 1 {
+		pcs = pcs[1:] // start at a long frame
+	}
+	ls := []string{fmt.Sprintf("sentinel %x", childSentinel), "panic: " + junk(2), "", "goroutine 1 [running]:"}
+	for _, pc := range pcs {
+		ls = append(ls, "some.symbol("+junk(rnd.Intn(2))+")", fmt.Sprintf("\t/src/x.go:1 +0x1 fp=0x1 sp=0x2 pc=0x%x", pc))
+	}
+	ls = append(ls, "", "goroutine 2 [sleep]:", "x()", "\t/x.go:1 pc=0x1")
+	return strings.Join(ls, "\n")
 }
 
 // symbolOf mirrors what the monitor extracts from a symbol line (only used
@@ -685,9 +739,14 @@ func main() {
 	}
 	bases := parsedReals()
 	emit := func(tag, text string) {
-		fields, _, _, ok := record(text)
+		fields, _, name, ok := record(text)
 		if ok {
 			out.Note("ok-" + tag)
+			if len(name) == 4096 {
+				out.Note("name-truncated")
+			} else if len(name) > 3800 {
+				out.Note("name-near-limit")
+			}
 		} else {
 			out.Note("notok-" + tag)
 		}
@@ -700,6 +759,15 @@ func main() {
 			caseUint()
 		case i%40 == 39:
 			caseSscan()
+		case i%50 == 7: // a very long line before the goroutine, on a real and on a synthetic report
+			t := rewriteNonPC(base).String()
+			emit("rewrite", t)
+			emit("long-line", withLongLine(t))
+			sy := synth()
+			emit("synthetic", sy)
+			emit("long-line-synthetic", withLongLine(sy))
+		case i%10 == 3: // real pcs of long-named functions: names near / beyond the limit
+			emit("long-names", longNameReport())
 		case r < 8: // projection-preserving rewrites of a real report
 			emit("rewrite", rewriteNonPC(base).String())
 		case r < 13: // outcome-changing mutations (sometimes rewritten as well)
